@@ -25,7 +25,8 @@ SPEC = dict(
                 "refuted (success reported with an unindexed block left for good). Tied on every run to the real light ShareAvailability + real "
                 "bitswap getter + real pruner.Service with a fault-injecting blockstore. The archival/pruned store effect of the FULL node's "
                 "Pruner.Prune itself (archival: only the parity quadrant goes and every sample is still served and verifies; pruned and "
-                "archival-then-pruned: the block goes; idempotent) is checked by an implementation oracle on the real store only, not modelled."),
+                "archival-then-pruned: the block goes; idempotent; repeatable: from every partial-removal state a crash, a failed step or an interrupted put can "
+                "leave on disk, the next Prune removes what is left or returns an error) is checked by an implementation oracle on the real store only, not modelled."),
     rule=("one case = one history on the real Service: header chain of 1..50 heights (tail 1, small or large) with regular, faster, slower or "
           "irregular block times (equal timestamps, gaps; 10% non-monotone), window placed so the cutoff falls inside the chain (+-1, +-block "
           "time) or covering nothing / everything / zero, batch limit 2..8 (5%: 512), failure script per height and attempt (none, transient, "
@@ -34,6 +35,13 @@ SPEC = dict(
           "call) / tail removal / graceful restart / crash / reset. Observed after every event: heights handed to Prune with outcome (retry "
           "block compared as a set, batches in order), in-memory and persisted checkpoint (height, failed set). Non-trivial = at least one "
           "Prune call and (a failure or a restart/crash); distinct = distinct Coq case term. "
+          "Full (TestVerifC14Full, L3 only): 12 stored blocks pruned twice in archival / pruned / archival-then-pruned mode; then, each on a store of its own, "
+          "for pruned and archival mode, with and without reopening the store before the call: a stored block (PutODSQ4 or PutODS) in every state a partial "
+          "removal or an interrupted put leaves on disk (complete; height link gone; link + ODS gone, Q4 left; Q4 gone; link + Q4 gone; everything gone; "
+          "Q4 removal failing once = the Q4 path is a non-empty directory, healed before the retry, with and without the link) is handed to the real Prune: "
+          "a nil verdict must leave no blocks/<hash>.ods, blocks/<hash>.q4, heights/<h>.ods (archival: no Q4; a complete ODS + link stays and every sample "
+          "is served), an injected failure must be reported, the retry after it and a repeated call must succeed and leave the same "
+          "(sigs full-prune-leaves-files, full-prune-hides-failure, full-prune-partial-error, full-prune-retry-error). "
           "Light (TestVerifC14Light): one scenario = 2..5 blocks (ODS 1/2/4 or empty, 1..12 samples, 20% sampled only partly) sampled by the real light "
           "availability through the real bitswap getter, then a head one window ahead; 5 cycles, each a new pruner.Service (Start = one cycle, awaited on "
           "the header store's Tail call + the checkpoint mutex, Stop), per script a new ShareAvailability after the cycle; datastore wired as the node does "
